@@ -525,4 +525,170 @@ theorem planRemoveMarkSteps_good (S : Schema) (doc : Node) (f t : Nat) (sel : Ma
     removeMarkVisit_fold_good _ t S f sel hft hf ht _ _ (by simp) (docVisits_visitQ S doc f t)
       (docVisits_sorted S doc f t) r hr⟩
 
+/-! ### 4. a list of mark steps over good ranges applies -/
+
+/-- what every intermediate document of the operation satisfies, relative to the child list `K0` of
+    the document the operation started from -/
+structure DocInv (S : Schema) (K0 : List Node) (d : Node) : Prop where
+  elem : ∃ ty a mk K, d = .elem ty a mk K
+  valid : S.checkNode d = true
+  norm : fnorm d.kids = true
+  shape : (ftoks d.kids).map Tok.shape = (ftoks K0).map Tok.shape
+
+theorem DocInv.size {S : Schema} {K0 : List Node} {d : Node} (h : DocInv S K0 d) :
+    fsize d.kids = fsize K0 := by
+  have := congrArg List.length h.shape
+  simpa [ftoks_length] using this
+
+theorem sameMarkup_elem (d' : Node) (ty : TypeId) (a : Attrs) (mk : Marks) (K : List Node)
+    (h : d'.sameMarkup (.elem ty a mk K) = true) : ∃ K', d' = .elem ty a mk K' := by
+  cases d' with
+  | text s m => simp [Node.sameMarkup] at h
+  | leaf t a' m => simp [Node.sameMarkup] at h
+  | elem t a' m K' =>
+    simp only [Node.sameMarkup, Bool.and_eq_true, beq_iff_eq] at h
+    obtain ⟨⟨rfl, rfl⟩, rfl⟩ := h
+    exact ⟨K', rfl⟩
+
+theorem fromReplace_elem_kids (S : Schema) (ty : TypeId) (a : Attrs) (mk : Marks) (K K' : List Node)
+    (f t : Nat) (sl : Slice) (h : S.fromReplace (.elem ty a mk K) f t sl = .ok (.elem ty a mk K')) :
+    replaceKids S ty K f t sl = .ok K' := by
+  unfold Schema.fromReplace Schema.replace at h
+  simp only at h
+  cases hr : replaceKids S ty K f t sl with
+  | error e => simp [hr, Except.map] at h
+  | ok K1 =>
+    simp [hr, Except.map] at h
+    rw [h]
+
+/-- an applied add-mark step keeps the invariant -/
+theorem addMark_keeps (S : Schema) (hts : TextStableP S) (K0 : List Node) (d d' : Node) (f t : Nat)
+    (m : Mark) (hI : DocInv S K0 d) (h : S.apply (.addMark f t m) d = .ok d') : DocInv S K0 d' := by
+  obtain ⟨htk, hsm⟩ := apply_addMark_toks S d d' f t m h
+  obtain ⟨ty, a, mk, K, rfl⟩ := hI.elem
+  obtain ⟨K', rfl⟩ := sameMarkup_elem d' ty a mk K hsm
+  have h' := h
+  unfold Schema.apply at h'
+  simp only at h'
+  split at h'
+  · simp at h'
+  · rename_i old hold
+    split at h'
+    · simp at h'
+    · rename_i p hp
+      refine ⟨⟨ty, a, mk, K', rfl⟩, ?_, ?_, ?_⟩
+      · exact replace_valid S _ _ f t _ hI.valid
+          (addMark_payload S hts m p _ _ _ (slice_openValid S _ f t old hI.valid hold)) h'
+      · have hr := fromReplace_elem_kids S ty a mk K K' f t _ h'
+        have hn := hI.norm
+        simp only [Node.kids] at hn ⊢
+        have hon := (sliceKids_norm _ f t old hn hold).1
+        refine replaceKids_norm S _ _ f t _ _ hn ?_ hr
+        simp only [addMarkKids_eq_map]
+        exact fromArray_norm _ ((addMark_markMap S m).norm_list _ p (fnormKids_of_fnorm hon))
+      · rw [htk, addMarkToks_shape]; exact hI.shape
+
+/-- an applied remove-mark step keeps the invariant -/
+theorem removeMark_keeps (S : Schema) (hts : TextStableP S) (K0 : List Node) (d d' : Node) (f t : Nat)
+    (m : Mark) (hI : DocInv S K0 d) (h : S.apply (.removeMark f t m) d = .ok d') : DocInv S K0 d' := by
+  obtain ⟨htk, hsm⟩ := apply_removeMark_toks S d d' f t m h
+  obtain ⟨ty, a, mk, K, rfl⟩ := hI.elem
+  obtain ⟨K', rfl⟩ := sameMarkup_elem d' ty a mk K hsm
+  have h' := h
+  unfold Schema.apply at h'
+  simp only at h'
+  split at h'
+  · simp at h'
+  · rename_i old hold
+    refine ⟨⟨ty, a, mk, K', rfl⟩, ?_, ?_, ?_⟩
+    · exact replace_valid S _ _ f t _ hI.valid
+        (removeMark_payload S hts m _ _ _ (slice_openValid S _ f t old hI.valid hold)) h'
+    · have hr := fromReplace_elem_kids S ty a mk K K' f t _ h'
+      have hn := hI.norm
+      simp only [Node.kids] at hn ⊢
+      have hon := (sliceKids_norm _ f t old hn hold).1
+      refine replaceKids_norm S _ _ f t _ _ hn ?_ hr
+      simp only [removeMarkKids_eq_map]
+      exact fromArray_norm _ ((removeMark_markMap S m).norm_list _ 0 (fnormKids_of_fnorm hon))
+    · rw [htk, removeMarkToks_shape]; exact hI.shape
+
+/-- **one mark step over a good range applies and keeps the invariant**; the ends are mark-blind
+    aligned in the *original* child list `K0` -/
+theorem markStep_total (S : Schema) (hts : TextLoop S) (K0 : List Node) (d : Node) (s : Step)
+    (hI : DocInv S K0 d)
+    (hs : GoodStep (fun q => unitAligned (ftoks K0) q = true) (fsize K0) s) :
+    ∃ d', S.apply s d = .ok d' ∧ DocInv S K0 d' := by
+  obtain ⟨a, b, x, hk, hab, hb, ha1, ha2⟩ := hs
+  obtain ⟨ty, at_, mk, K, rfl⟩ := hI.elem
+  have hsz := hI.size
+  simp only [Node.kids] at hsz
+  have hn := hI.norm
+  simp only [Node.kids] at hn
+  have hsh := hI.shape
+  simp only [Node.kids] at hsh
+  have al : ∀ q, unitAligned (ftoks K0) q = true → alignedAt K q = true := by
+    intro q hq
+    exact alignedAt_of_unit K q (by rw [unitAligned_shape _ _ hsh]; exact hq)
+  rcases hk with rfl | rfl
+  · obtain ⟨d', hd'⟩ := addMark_applies S hts ty at_ mk K a b x hI.valid hn hab (by omega) (al a ha1) (al b ha2)
+    exact ⟨d', hd', addMark_keeps S hts.stable K0 _ d' a b x hI hd'⟩
+  · obtain ⟨d', hd'⟩ := removeMark_applies S hts ty at_ mk K a b x hI.valid hn hab (by omega) (al a ha1) (al b ha2)
+    exact ⟨d', hd', removeMark_keeps S hts.stable K0 _ d' a b x hI hd'⟩
+
+/-- **a list of mark steps over good ranges applies**, and the invariant holds for the result -/
+theorem stepAll_total (S : Schema) (hts : TextLoop S) (K0 : List Node) : ∀ (steps : List Step) (tr : Tr),
+    DocInv S K0 tr.doc →
+    (∀ s ∈ steps, GoodStep (fun q => unitAligned (ftoks K0) q = true) (fsize K0) s) →
+    ∃ tr', tr.stepAll S steps = .ok tr' ∧ DocInv S K0 tr'.doc
+  | [], tr, hI, _ => ⟨tr, rfl, hI⟩
+  | s :: ss, tr, hI, hs => by
+    obtain ⟨d', hd', hI'⟩ := markStep_total S hts K0 tr.doc s hI (hs s (List.mem_cons_self ..))
+    obtain ⟨tr', h', hI''⟩ := stepAll_total S hts K0 ss (tr.addStep s d') hI'
+      (fun s' hs' => hs s' (List.mem_cons_of_mem _ hs'))
+    refine ⟨tr', ?_, hI''⟩
+    simp only [Tr.stepAll, Tr.step, hd']
+    exact h'
+
+/-- good ranges in terms of `alignedAt` are good in terms of `unitAligned` when no text node ends in a
+    high surrogate, and `t ≤ fsize` bounds them by the size -/
+theorem GoodStep.to_unit (K0 : List Node) (t : Nat) (s : Step) (hc : pairClosedKids K0 = true)
+    (ht : t ≤ fsize K0) (h : GoodStep (fun q => alignedAt K0 q = true) t s) :
+    GoodStep (fun q => unitAligned (ftoks K0) q = true) (fsize K0) s := by
+  obtain ⟨a, b, x, hk, hab, hb, ha1, ha2⟩ := h
+  exact ⟨a, b, x, hk, hab, by omega, unit_of_alignedAt K0 a hc ha1, unit_of_alignedAt K0 b hc ha2⟩
+
+/-! #### the two operations -/
+
+theorem isLeaf_false_elem (d : Node) (h : d.isLeaf = false) : ∃ ty a mk K, d = .elem ty a mk K := by
+  cases d with
+  | text s m => simp [Node.isLeaf] at h
+  | leaf t a m => simp [Node.isLeaf] at h
+  | elem t a m K => exact ⟨t, a, m, K, rfl⟩
+
+theorem DocInv.init (S : Schema) (d : Node) (hdoc : d.isLeaf = false) (hv : S.checkNode d = true)
+    (hn : fnorm d.kids = true) : DocInv S d.kids d :=
+  ⟨isLeaf_false_elem d hdoc, hv, hn, rfl⟩
+
+/-- **`Transform.add_mark` goes through**, and validity, normal form and token shapes are kept -/
+theorem addMark_total_inv (S : Schema) (hts : TextLoop S) (tr : Tr) (f t : Nat) (m : Mark)
+    (hdoc : tr.doc.isLeaf = false) (hv : S.checkNode tr.doc = true) (hn : fnorm tr.doc.kids = true)
+    (hc : pairClosedKids tr.doc.kids = true) (hft : f ≤ t) (ht : t ≤ fsize tr.doc.kids)
+    (haf : alignedAt tr.doc.kids f = true) (hat : alignedAt tr.doc.kids t = true) :
+    ∃ tr', tr.addMark S f t m = .ok tr' ∧ DocInv S tr.doc.kids tr'.doc := by
+  unfold Tr.addMark planAddMark
+  rw [if_neg (by omega)]
+  exact stepAll_total S hts tr.doc.kids _ tr (DocInv.init S tr.doc hdoc hv hn)
+    (fun s hs => GoodStep.to_unit _ t s hc ht (planAddMarkSteps_good S tr.doc f t m hft haf hat s hs))
+
+/-- **`Transform.remove_mark` goes through**, and validity, normal form and token shapes are kept -/
+theorem removeMark_total_inv (S : Schema) (hts : TextLoop S) (tr : Tr) (f t : Nat) (sel : MarkSel)
+    (hdoc : tr.doc.isLeaf = false) (hv : S.checkNode tr.doc = true) (hn : fnorm tr.doc.kids = true)
+    (hc : pairClosedKids tr.doc.kids = true) (hft : f ≤ t) (ht : t ≤ fsize tr.doc.kids)
+    (haf : alignedAt tr.doc.kids f = true) (hat : alignedAt tr.doc.kids t = true) :
+    ∃ tr', tr.removeMark S f t sel = .ok tr' ∧ DocInv S tr.doc.kids tr'.doc := by
+  unfold Tr.removeMark planRemoveMark
+  rw [if_neg (by omega)]
+  exact stepAll_total S hts tr.doc.kids _ tr (DocInv.init S tr.doc hdoc hv hn)
+    (fun s hs => GoodStep.to_unit _ t s hc ht (planRemoveMarkSteps_good S tr.doc f t sel hft haf hat s hs))
+
 end PM
